@@ -258,8 +258,35 @@ def inv_uninterpreted(M):
     return np.ndarray._new(vals, (n, n), np.float64)
 
 
+def _opaque_det(M):
+    c = core.ctx()
+    d = c.fresh_real('det')
+    c.assume(d > 0)
+    return SymReal(d)
+
+
+def _opaque_slogdet(M):
+    return (1.0, SymReal(core.ctx().fresh_real('logdet')))
+
+
+def _opaque_norm(v):
+    c = core.ctx()
+    r = c.fresh_real('norm')
+    c.assume(r >= 0)
+    return SymReal(r)
+
+
+def default_linalg():
+    """Opaque defaults for every LAPACK entry a property-preserving edit of
+    the repo may switch to (det <-> slogdet, ...): a harness that does not care
+    about a value must not trip over which routine produced it."""
+    return {'det': _opaque_det, 'slogdet': _opaque_slogdet, 'inv': inv_uninterpreted, 'pinv': inv_uninterpreted,
+            'norm': _opaque_norm}
+
+
 def install_linalg(**impl):
     np.linalg._impl.clear()
+    np.linalg._impl.update(default_linalg())
     np.linalg._impl.update(impl)
 
 
